@@ -10,7 +10,7 @@
    pattern read as an expression under s rebuilds v" is NOT proved for arbitrary
    nesting; it is what the correspondence run checks against the implementation
    on the pattern x value product (matching, near-miss and wrong-kind values). *)
-From Arrai Require Import Base.Val Spec.SetAlg Eval.Interp Proofs.ValOrder Proofs.PatternP.
+From Arrai Require Import Base.Val Spec.SetAlg Eval.Interp Proofs.ValOrder Proofs.PatternP Proofs.PatArrP.
 
 Theorem C09_repeated_names_must_agree :
   forall t s r x a w, env_matched_update s t = Some r -> env_get x s = Some (D a) -> In (x, w) t -> w = D a.
@@ -66,3 +66,35 @@ Example C09_probe :
                     (ETupE [([120], EVar [120]); ([114], EVar [114])]))
   = Ok (VTup [([114], VSet [vpair n_item (vint 0) (vint 2); vpair n_item (vint 1) (vint 3)]); ([120], vint 1)]).
 Proof. vm_compute. reflexivity. Qed.
+
+(* Array patterns of names, _ and literals, any length: the match succeeds exactly when some assignment
+   of the names rebuilds the array from the pattern; on success every name is bound to the corresponding
+   component (so repeated names agree), literals equal their component, and the array is dense,
+   zero-based and exactly as long as the pattern. *)
+Theorem C09_flat_array_pattern_binds_components :
+  forall fuel rho ls v sc,
+    bind_pat (S (S (S fuel))) rho (PArr (flat_items ls)) (D v) = Ok sc ->
+    exists xs, dense_array v = Some xs /\ Forall2 (leaf_ok sc) ls xs.
+Proof. exact flat_array_pattern_sound. Qed.
+Print Assumptions C09_flat_array_pattern_binds_components.
+
+Theorem C09_flat_array_pattern_matches_when_rebuildable :
+  forall fuel rho ls v xs (s : name -> val),
+    dense_array v = Some xs -> Forall2 (leaf_rebuilds s) ls xs ->
+    exists sc, bind_pat (S (S (S fuel))) rho (PArr (flat_items ls)) (D v) = Ok sc.
+Proof. exact flat_array_pattern_complete. Qed.
+Print Assumptions C09_flat_array_pattern_matches_when_rebuildable.
+
+Theorem C09_repeated_name_components_equal :
+  forall fuel rho ls v sc x i j a b,
+    bind_pat (S (S (S fuel))) rho (PArr (flat_items ls)) (D v) = Ok sc ->
+    nth_error ls i = Some (LVar x) -> nth_error ls j = Some (LVar x) ->
+    forall xs, dense_array v = Some xs -> nth_error xs i = Some a -> nth_error xs j = Some b -> a = b.
+Proof. exact repeated_name_components_equal. Qed.
+Print Assumptions C09_repeated_name_components_equal.
+
+(* non-vacuity: [x, 2, _, x] against [1, 2, 3, 1] *)
+Example C09_flat_array_example :
+  exists sc, bind_pat 5 [] (PArr (flat_items [LVar [120]; LLit (vint 2); LWild; LVar [120]]))
+               (D (VSet (vseq_from n_item 0 [vint 1; vint 2; vint 3; vint 1]))) = Ok sc.
+Proof. eexists. vm_compute. reflexivity. Qed.
